@@ -310,6 +310,19 @@ def check_voxels(case, ctx):
         g2, f2 = voxelize.voxelize(obj2, grid_size=tuple(case["grid"]), use_cubes=case["cubes"], **kw)
         ctx.check([list(map(list, v)) for v in cgrid[half:]] == [list(map(list, v)) for v in g2] and list(cfilled[half:]) == list(f2), "container-member-voxels",
                   "the second member's part of the container result differs from voxelising that member alone (%d vs %d filled)" % (sum(cfilled[half:]), sum(f2)))
+    if case["n"] % 3 == 1:
+        # a shape that was never sampled: its box is looked at, its control points are replaced, then it is voxelised
+        o3 = build.make(d)
+        o3.delta = 1.0 / case["n"]
+        _ = o3.bbox
+        o3.ctrlpts = [[c * 0.5 - 2.0 for c in q] for q in d["P"]]
+        bb3 = [[min(q[i] * 0.5 - 2.0 for q in d["P"]) for i in range(3)], [max(q[i] * 0.5 - 2.0 for q in d["P"]) for i in range(3)]]
+        g3, f3 = voxelize.voxelize(o3, grid_size=tuple(case["grid"]), use_cubes=case["cubes"])
+        ctx.label("unsampled-shape-with-new-control-points")
+        for i in range(3):
+            ctx.check(len(g3) > 0 and min(v[0][i] for v in g3) <= bb3[0][i] + 1e-9 and max(v[1][i] for v in g3) >= bb3[1][i] - 1e-9, "voxel-grid-does-not-cover-bbox",
+                      "after new control points on a never-sampled shape the voxel grid spans [%r, %r] on axis %d, the control net [%r, %r]" % (
+                          min(v[0][i] for v in g3) if g3 else None, max(v[1][i] for v in g3) if g3 else None, i, bb3[0][i], bb3[1][i]))
     if case["n"] % 2 == 0:
         # the same object voxelised again after its control points moved: the grid follows the new bounding box
         obj.ctrlpts = [[c * 1.5 + 3.0 for c in q] for q in d["P"]]
@@ -331,7 +344,7 @@ def check_voxels(case, ctx):
 def _lookup_cases(draw, tier):
     d = draw(gen.spline(kinds=("curve", "surface"), max_p=4, max_extra=4, different=True, distinct=True, unclamped="maybe",
                         affine_range="maybe", normalize="maybe"))
-    return {"defn": d, "params": draw(st.lists(gen.params(len(d["degree"])), min_size=1, max_size=4))}
+    return {"defn": d, "params": draw(st.lists(gen.params(len(d["degree"])), min_size=1, max_size=4)), "binsearch": draw(st.integers(0, 3)) == 0}
 
 
 def check_lookup(case, ctx):
@@ -345,6 +358,9 @@ def check_lookup(case, ctx):
     R = build.exact_from(d, obj)
     pdim = len(d["degree"])
     P = d["P"]
+    from geomdl import helpers as _h
+    kwl = {"find_span_func": _h.find_span_binsearch} if case.get("binsearch") else {}          # documented keyword of the lookup
+    ctx.label("binary-span-search", bool(kwl))
     hom = build.homogeneous(P, d["W"]) if d["rational"] else None
     kinds_all = []
     for descs in case["params"]:
@@ -352,12 +368,12 @@ def check_lookup(case, ctx):
         kinds_all += kinds
         sp = R.spans(us)
         if pdim == 1:
-            got = [list(p) for p in operations.find_ctrlpts(obj, us[0])]
+            got = [list(p) for p in operations.find_ctrlpts(obj, us[0], **kwl)]
             want_idx = list(range(sp[0] - d["degree"][0], sp[0] + 1))
             ctx.check(len(got) == len(want_idx), "lookup-count", "find_ctrlpts returned %d points for degree %d" % (len(got), d["degree"][0]))
             rows = [(got, want_idx)]
         else:
-            g = operations.find_ctrlpts(obj, us[0], us[1])
+            g = operations.find_ctrlpts(obj, us[0], us[1], **kwl)
             nv = d["size"][1]
             ctx.check(len(g) == d["degree"][0] + 1 and all(len(r) == d["degree"][1] + 1 for r in g), "lookup-count", "find_ctrlpts returned shape %r for degrees %r" % ([len(r) for r in g], d["degree"]))
             rows = []
